@@ -135,21 +135,39 @@ def run(ck):
     gs = [g for g in F.globals.values() if g["name"].endswith("g_activeLogger")]
     ck.require(len(gs) == 1, "g_activeLogger no longer resolves")
     gl = gs[0]
-    atomic = gl["type"].startswith(("QAtomicPointer<", "std::atomic<"))
-    ck.ob("C02-O6", "%s:%d (g_activeLogger)" % (gl["file"].split("/src/")[-1], gl["line"]), atomic, "active logger pointer has type %s" % gl["type"] if atomic else
-          "active logger pointer is a plain %s: install and the message handler race on it" % gl["type"], key="g_activeLogger|not-atomic")
+    # the cell may be the global itself or the pointer field of a file-local wrapper object (`ActiveLoggerSlot g_activeLogger`)
+    cell_type = gl["type"]
+    wrapper_fields = []
+    wrec = F.records.get(gl["type"].replace("const ", "").strip())
+    if wrec is not None:
+        wrapper_fields = [f_ for f_ in wrec.get("fields", []) if "Logger" in f_.get("type", "")]
+        if len(wrapper_fields) == 1:
+            cell_type = wrapper_fields[0]["type"]
+
+    def is_cell(x):
+        x = skip_copies(x) if isinstance(x, dict) else None
+        if not isinstance(x, dict):
+            return False
+        if is_ref_to(x, gl["decl"]):
+            return wrec is None
+        if wrec is not None and x.get("k") == "member" and x.get("dk") == "field" and len(wrapper_fields) == 1 and x["name"].split("::")[-1] == wrapper_fields[0]["name"]:
+            return is_ref_to(x.get("base"), gl["decl"])
+        return False
+    atomic = cell_type.startswith(("QAtomicPointer<", "std::atomic<"))
+    ck.ob("C02-O6", "%s:%d (g_activeLogger)" % (gl["file"].split("/src/")[-1], gl["line"]), atomic, "active logger pointer has type %s" % cell_type if atomic else
+          "active logger pointer is a plain %s: install and the message handler race on it" % cell_type, key="g_activeLogger|not-atomic")
     dt = F.fn(LG + "::~Logger")
     ck.touch(dt)
     g = Graph(dt)
     clears = []
     for n in dt.calls():
-        if n.get("ck") == "member" and is_ref_to(n.get("obj"), gl["decl"]) and name_is(n.get("callee"), ("testAndSetOrdered", "testAndSetRelease", "testAndSetAcquire", "testAndSetRelaxed", "compare_exchange_strong")):
+        if n.get("ck") == "member" and is_cell(n.get("obj")) and name_is(n.get("callee"), ("testAndSetOrdered", "testAndSetRelease", "testAndSetAcquire", "testAndSetRelaxed", "compare_exchange_strong")):
             a = n.get("args", [])
             if len(a) >= 2 and skip_copies(deref_local(dt, a[0])).get("k") == "this" and skip_copies(deref_local(dt, a[1])).get("k") == "null_lit":
                 clears.append(n)
-        if n.get("ck") == "member" and is_ref_to(n.get("obj"), gl["decl"]) and name_is(n.get("callee"), ("storeRelease", "store", "storeRelaxed")) and n.get("args") and skip_copies(n["args"][0]).get("k") == "null_lit":
+        if n.get("ck") == "member" and is_cell(n.get("obj")) and name_is(n.get("callee"), ("storeRelease", "store", "storeRelaxed")) and n.get("args") and skip_copies(n["args"][0]).get("k") == "null_lit":
             clears.append(n)
-    for n in dt.find(lambda n: n.get("k") == "binop" and n.get("op") == "=" and is_ref_to(n.get("lhs"), gl["decl"]) and skip_copies(n.get("rhs")).get("k") == "null_lit"):
+    for n in dt.find(lambda n: n.get("k") == "binop" and n.get("op") == "=" and is_cell(n.get("lhs")) and skip_copies(n.get("rhs")).get("k") == "null_lit"):
         clears.append(n)
     ok = bool(clears) and (g.must_pass(set(g.sites_of_nodes(clears))) or atomic and all(name_is(c.get("callee"), ("testAndSetOrdered", "testAndSetRelease", "testAndSetAcquire", "testAndSetRelaxed", "compare_exchange_strong")) for c in clears))
     if clears and not atomic:
@@ -158,7 +176,7 @@ def run(ck):
     ck.ob("C02-O6", sitestr(dt), ok, "~Logger clears the active-logger pointer if it is this logger" if ok else "~Logger leaves a dangling active-logger pointer", key="Logger::~Logger|no-clear")
     # null test in messageHandler
     g = Graph(mh)
-    loads = [n for n in mh.find(lambda n: n.get("k") == "decl") for v in n.get("vars", []) if isinstance(v.get("init"), dict) and any(is_ref_to(x, gl["decl"]) for x in walk(v["init"]))]
+    loads = [n for n in mh.find(lambda n: n.get("k") == "decl") for v in n.get("vars", []) if isinstance(v.get("init"), dict) and any(is_cell(x) for x in walk(v["init"]))]
     if len(loads) == 1:
         ld = loads[0]["vars"][0]["decl"]
         isl = lambda n: n.get("k") == "ref" and n.get("decl") == ld
@@ -173,8 +191,8 @@ def run(ck):
     inst = F.fn(LG + "::installMessageHandler")
     ck.touch(inst)
     g = Graph(inst)
-    st = [n for n in inst.calls() if is_ref_to(n.get("obj"), gl["decl"]) and n.get("args") and skip_copies(deref_local(inst, n["args"][0])).get("k") == "this"]
-    st += inst.find(lambda n: n.get("k") == "binop" and n.get("op") == "=" and is_ref_to(n.get("lhs"), gl["decl"]) and skip_copies(n.get("rhs")).get("k") == "this")
+    st = [n for n in inst.calls() if is_cell(n.get("obj")) and n.get("args") and skip_copies(deref_local(inst, n["args"][0])).get("k") == "this"]
+    st += inst.find(lambda n: n.get("k") == "binop" and n.get("op") == "=" and is_cell(n.get("lhs")) and skip_copies(n.get("rhs")).get("k") == "this")
     qi = [n for n in inst.calls("qInstallMessageHandler")]
     ok = bool(st) and bool(qi) and all(g.dominated(q, set(g.sites_of_nodes(st))) for q in g.sites_of_nodes(qi))
     ck.ob("C02-O6", sitestr(inst), ok, "the logger is published before the Qt handler is installed" if ok else "the Qt handler is installed before/without publishing the logger",
